@@ -17,7 +17,7 @@ import (
 	sdk "github.com/cosmos/cosmos-sdk/types"
 )
 
-func init() { props["C13"] = runC13 }
+func init() { props["C13"] = func(r *Rec) { runC13(r); ubiFor(r, "C13") } }
 
 func runC13(r *Rec) {
 	w := NewWorld(WorldOpts{NAcc: 4, NVal: 1, SudoAccs: []int{0}})
